@@ -37,6 +37,46 @@ impl Arena {
         self.put(addr, &code)
     }
 
+    /// A function of entry shape `shape` that returns `id`:
+    ///   0 `mov eax,id; ret`            1 `jmp rel32` forwarder to a body 48 bytes further
+    ///   2 `jmp short` forwarder        3 `endbr64; mov eax,id; ret`
+    ///   4 `jmp [rip+0]; .quad body`    (PLT-like indirect thunk)
+    /// Forwarders are ordinary functions (tail-call wrappers, linker thunks): naming one in an
+    /// installation designates *its* entry, not the entry of what it jumps to.
+    /// Returns the address of the separate body (if any) so that callers can watch it.
+    pub fn put_shaped(&self, addr: usize, id: u32, shape: u8) -> Option<usize> {
+        match shape % 5 {
+            1 => {
+                let body = addr + 48;
+                let rel = (body as i64 - (addr as i64 + 5)) as i32;
+                let mut code = vec![0xE9u8];
+                code.extend_from_slice(&rel.to_le_bytes());
+                if self.put(addr, &code) && self.put_ret_id(body, id) { Some(body) } else { self.put_ret_id(addr, id); None }
+            }
+            2 => {
+                let body = addr + 48;
+                if self.put(addr, &[0xEB, 46]) && self.put_ret_id(body, id) { Some(body) } else { self.put_ret_id(addr, id); None }
+            }
+            3 => {
+                let mut code = vec![0xF3u8, 0x0F, 0x1E, 0xFA, 0xB8];
+                code.extend_from_slice(&id.to_le_bytes());
+                code.push(0xC3);
+                self.put(addr, &code);
+                None
+            }
+            4 => {
+                let body = addr + 48;
+                let mut code = vec![0xFFu8, 0x25, 0, 0, 0, 0];
+                code.extend_from_slice(&(body as u64).to_le_bytes());
+                if self.put(addr, &code) && self.put_ret_id(body, id) { Some(body) } else { self.put_ret_id(addr, id); None }
+            }
+            _ => {
+                self.put_ret_id(addr, id);
+                None
+            }
+        }
+    }
+
     pub fn put(&self, addr: usize, code: &[u8]) -> bool {
         if !self.contains(addr, code.len()) {
             return false;
